@@ -82,6 +82,13 @@ def apply(name: str, par: Dict[str, Any], ops: List[Any], model: bool):
             kw["prepend"] = ops[par["prepend"]]
         if par.get("append") is not None:
             kw["append"] = ops[par["append"]]
+        if par.get("positional"):  # diff(a, n, axis, prepend, append): numpy's parameter order
+            args = [par.get("n", 1), par.get("axis", -1)]
+            if "prepend" in kw or "append" in kw:
+                args.append(kw["prepend"] if "prepend" in kw else numpy._NoValue)
+            if "append" in kw:
+                args.append(kw["append"])
+            return lib.diff(a, *args)
         return lib.diff(a, n=par.get("n", 1), axis=par.get("axis", -1), **kw)
     if name == "ediff1d":
         kw = {}
@@ -320,6 +327,8 @@ def gen_cases(tier: str, seed: int) -> List[Dict]:
         pshape = tuple(list(shape[:-1]) + [1])
         add("diff", [P(shape, "a"), P(pshape, "b", names=("q1",))], {"n": 1, "axis": ax, "prepend": 1}, tag="-prepend")
         add("diff", [P(shape, "a"), P(pshape, "b", names=("q1",))], {"n": 2, "axis": ax, "append": 1}, tag="-append")
+        add("diff", [P(shape, "a"), P(pshape, "b", names=("q1",))], {"n": 1, "axis": ax, "prepend": 1, "positional": True}, tag="-prepend-positional")
+        add("diff", [P(shape, "a", atoms=4), P(pshape, "b", atoms=2), P(pshape, "c", atoms=2)], {"n": 1, "axis": ax, "prepend": 1, "append": 2, "positional": True}, tag="-both-positional")
         add("diff", [P(shape, "a", atoms=4), P(pshape, "b", atoms=2), P(pshape, "c", atoms=2)], {"n": 1, "axis": ax, "prepend": 1, "append": 2}, tag="-both")
         add("ediff1d", [P(shape)])
         add("ediff1d", [P(shape, "a", atoms=4), P((2,), "b", names=("q3",), atoms=2)], {"to_end": 1}, tag="-end")
